@@ -319,13 +319,17 @@ def serReadFinish (s : St) (n : Nat) : St × Out :=
   else if s.buf.length ≠ n then (s, .exc .assertion)
   else takeAll s
 
+/-- `(timeout is not None) and (timeout <= 0)` -/
+def nonBlocking : Option Int → Bool
+  | some t => decide (t ≤ 0)
+  | none => false
+
 /-- `QMI_SerialTransport.read(nbytes, timeout)` -/
 def serialRead (s : St) (n : Nat) (timeout : Option Int) : St × Out :=
   if !s.isOpen then (s, .exc .invalidOp)
   else if n ≤ s.buf.length then takeBuf s n
   else
-    let nonblocking : Bool := match timeout with | some t => decide (t ≤ 0) | none => false
-    if nonblocking then
+    if nonBlocking timeout then
       match inWaiting s with
       | (s1, avail) =>
         if n - s.buf.length ≤ avail then
@@ -338,14 +342,17 @@ def serialRead (s : St) (n : Nat) (timeout : Option Int) : St × Out :=
       | (s1, true) => (s1, .exc .exhausted)
       | (s1, false) => serReadFinish s1 n
 
+/-- `(tremain is None) or (tremain > 0)` -/
+def keepGoing : Option Int → Bool
+  | none => true
+  | some x => decide (0 < x)
+
 /-- the single-byte loop of `QMI_SerialTransport.read_until` -/
 def serUntilLoop (term : Bytes) (timeout : Option Int) (tstart : Nat) : Nat → Option Int → St → St × Out
   | 0, tremain, s =>
-    let go : Bool := match tremain with | none => true | some x => decide (0 < x)
-    if !go then (s, .exc .timeout) else (s, .exc .exhausted)
+    if !keepGoing tremain then (s, .exc .timeout) else (s, .exc .exhausted)
   | fuel + 1, tremain, s =>
-    let go : Bool := match tremain with | none => true | some x => decide (0 < x)
-    if !go then (s, .exc .timeout)
+    if !keepGoing tremain then (s, .exc .timeout)
     else
       match serRead s 1 with
       | (s1, none) => (s1, .exc .exhausted)
